@@ -2,7 +2,7 @@
 import ast
 
 from vstat.loader import AnalysisError
-from vstat.terms import IT, builder, show, SELF, NONE, G, alts, walk, mentions, phi
+from vstat.terms import IT, CMP, ordered, builder, show, SELF, NONE, G, alts, walk, mentions, phi
 from vstat.guards import path_conditions
 from vstat.cfg import cfg_of
 from vstat.sigs import bind
@@ -24,13 +24,14 @@ ASSUME = ["which cells are selected is C02; geometric quality of the ordering is
 def run(prog, rep):
     rep.explanation = EXPL
     rep.assumptions = ASSUME
-    compute(prog, rep)
-    sorter(prog, rep)
+    rep.part(compute, prog, rep)
+    rep.part(sorter, prog, rep)
     rep.expect_min("C15.struct", 3)
     rep.expect_min("C15.coords", 2)
     rep.expect_min("C15.shape", 2)
     rep.expect_min("C15.perm", 2)
-
+    from .purity import row as _stateless_row
+    rep.part(_stateless_row, prog, rep, "C15", 3)
 
 def compute(prog, rep):
     q = f"{HDC}._compute"
@@ -81,7 +82,7 @@ def compute(prog, rep):
     if lab_loop:
         L = lab_loop[0]
         i = ("idx", f"{L.lineno}:{L.col_offset}", "range", (("const", 1), ("bin", "+", nmodes, ("const", 1))))
-        nz = ("call", G("numpy.nonzero"), (("cmp", "==", labeled, i),), ())
+        nz = ("call", G("numpy.nonzero"), (CMP("==", labeled, i),), ())
         CCs = [s for s in cfg.all_stmts() if isinstance(s, ast.Assign) and isinstance(s.targets[0], ast.Attribute) and s.targets[0].attr == "cell_center_coordinates"]
         CC = b.term(CCs[0].value, CCs[0]) if len(CCs) == 1 else None
 
@@ -130,9 +131,9 @@ def compute(prog, rep):
     from vstat.terms import guarded_alts
     bg = builder(prog, fn, inline=False, guarded=True)
     cs = [s for s in cfg.all_stmts() if isinstance(s, ast.Assign) and isinstance(s.targets[0], ast.Attribute) and s.targets[0].attr == "coordinates"]
-    two = ("cmp", "==", nd, ("const", 2))
+    two = CMP("==", nd, ("const", 2))
     LST = ("list", ())
-    one = ("cmp", "==", ("call", G("len"), (LST,), ()), ("const", 1))
+    one = CMP("==", ("call", G("len"), (LST,), ()), ("const", 1))
     first = ("sub", LST, ("const", 0))
     kinds = {}
     from vstat.guards import PathConditions
